@@ -72,6 +72,7 @@ type Ctx struct {
 	outPath      string
 	curPath      string
 	curFile      *os.File
+	curMap       []byte
 
 	res      Result
 	classes  map[string]struct{}
@@ -260,7 +261,7 @@ func (c *Ctx) StreamSeedless(name string, total int, f func(i int, r *gen.Rand))
 
 func (c *Ctx) runCase(name string, i int, r *gen.Rand, f func(i int, r *gen.Rand)) {
 	atomic.AddUint64(&c.caseSeq, 1)
-	if c.curFile != nil {
+	if c.curMap != nil {
 		c.persistCur(nil)
 	}
 	defer func() {
@@ -277,7 +278,7 @@ func (c *Ctx) runCase(name string, i int, r *gen.Rand, f func(i int, r *gen.Rand
 func (c *Ctx) PersistInput(entry string, input []byte) {
 	atomic.AddUint64(&c.caseSeq, 1)
 	c.curInput.Store(curIn{entry, input})
-	if c.curFile != nil {
+	if c.curMap != nil {
 		c.persistCur(&curIn{entry, input})
 	}
 }
@@ -287,16 +288,32 @@ type curIn struct {
 	Input []byte
 }
 
+// The "case about to run" record lives in a file mapped MAP_SHARED: updating
+// it costs no system call, and the kernel keeps the pages when the process
+// dies. Layout: 4-byte little-endian length, then one JSON header line
+// followed by the raw input bytes.
+const curMapSize = 1 << 20
+
 func (c *Ctx) persistCur(in *curIn) {
-	rec := map[string]interface{}{"stream": c.curS, "index": c.curI}
-	if in != nil {
-		rec["entry"] = in.Entry
-		rec["input_hex"] = fmt.Sprintf("%x", in.Input)
+	if c.curMap == nil {
+		return
 	}
-	b, _ := json.Marshal(rec)
-	b = append(b, '\n')
-	c.curFile.Truncate(0)
-	c.curFile.WriteAt(b, 0)
+	hdr := fmt.Sprintf("{\"stream\":%q,\"index\":%d", c.curS, c.curI)
+	var raw []byte
+	if in != nil {
+		hdr += fmt.Sprintf(",\"entry\":%q", in.Entry)
+		raw = in.Input
+	}
+	hdr += "}\n"
+	c.writeCur(hdr, raw)
+}
+
+func (c *Ctx) writeCur(hdr string, raw []byte) {
+	m := c.curMap
+	m[0], m[1], m[2], m[3] = 0, 0, 0, 0
+	n := copy(m[4:], hdr)
+	n += copy(m[4+n:], raw)
+	m[0], m[1], m[2], m[3] = byte(n), byte(n>>8), byte(n>>16), byte(n>>24)
 }
 
 // Watchdog starts a goroutine that ends the process (exit 3) when the heap
@@ -324,15 +341,11 @@ func (c *Ctx) Watchdog(heapLimit uint64, cpuLimit time.Duration) {
 				reason = "cpu-limit"
 			}
 			if reason != "" {
-				if c.curFile != nil {
+				if c.curMap != nil {
 					in, _ := c.curInput.Load().(curIn)
-					rec := map[string]interface{}{"stream": c.curS, "index": c.curI, "entry": in.Entry,
-						"input_hex": fmt.Sprintf("%x", in.Input), "reason": reason, "heap": heap}
+					rec := map[string]interface{}{"stream": c.curS, "index": c.curI, "entry": in.Entry, "reason": reason, "heap": heap}
 					b, _ := json.Marshal(rec)
-					b = append(b, '\n')
-					c.curFile.Truncate(0)
-					c.curFile.WriteAt(b, 0)
-					c.curFile.Sync()
+					c.writeCur(string(b)+"\n", in.Input)
 				}
 				fmt.Fprintf(os.Stderr, "WATCHDOG %s stream=%s index=%d heap=%d\n", reason, c.curS, c.curI, heap)
 				os.Exit(3)
@@ -381,8 +394,10 @@ func Main(prop string, run func(c *Ctx)) {
 	}
 	if *cur != "" {
 		f, err := os.OpenFile(*cur, os.O_CREATE|os.O_RDWR|os.O_TRUNC, 0o644)
-		if err == nil {
-			c.curFile = f
+		if err == nil && f.Truncate(curMapSize) == nil {
+			if m, err := syscall.Mmap(int(f.Fd()), 0, curMapSize, syscall.PROT_READ|syscall.PROT_WRITE, syscall.MAP_SHARED); err == nil {
+				c.curFile, c.curMap = f, m
+			}
 		}
 	}
 	run(c)
